@@ -5,6 +5,8 @@ The model does not build the environment: it *checks* the environment recorded f
 against what the indexer supplied, and refuses the events otherwise (a broken correspondence). These theorems say
 what an accepted call guarantees about every run it contained.
 -/
+import Brc20.Model.DriverE
+import Brc20.Props.C10
 import Brc20.Model.Node
 import Brc20.Proofs.Node
 import Brc20.Model.Forks
@@ -125,5 +127,23 @@ theorem C19.finding_F21_legacy_hash_collision :
     Forks.txidSeenColliding Gen.PRAGUE_ACTIVATION_HEIGHT_MAINNET Gen.PRAGUE_ACTIVATION_HEIGHT_SIGNET
         Gen.RLP_HASH_ACTIVATION_HEIGHT_MAINNET Gen.RLP_HASH_ACTIVATION_HEIGHT_SIGNET .bitcoin 923373 923374 "t26" "t27" zeroHash = "t27" := by
   decide
+
+/-- the value a protocol line carries under key `k`, as `DriverE.stepCore` reads it -/
+def DriverE.argOf (line k : String) : String :=
+  field (DriverE.kvs ((((line.splitOn " ## ").headD "").trimAscii.toString.splitOn " ").filter (· ≠ ""))) k
+
+/-- **What the driver answers to an observation of the Prague-boundary scenario is the rule above, with the activation
+heights that are in the source now** (the driver carries the numbers; `Gen` is regenerated on every run): the node
+plays no part, and for an ordinary observation neither does the parking block. -/
+theorem C19.pbound_answer (n : Node) (line : String) (hop : DriverE.opOf line = "pbound")
+    (hk : (DriverE.argOf line "kind" == "collide") = false) :
+    DriverE.stepCore n line =
+      (n, .inr ("seen=" ++ Forks.txidSeen Gen.PRAGUE_ACTIVATION_HEIGHT_MAINNET Gen.PRAGUE_ACTIVATION_HEIGHT_SIGNET
+        (Forks.netOf (DriverE.argOf line "net")) (DriverE.argOf line "exec").toNat! (DriverE.argOf line "txid") zeroHash)) := by
+  unfold DriverE.opOf at hop
+  unfold DriverE.argOf at hk ⊢
+  unfold DriverE.stepCore
+  simp only [hop, hk, Bool.false_eq_true, if_false]
+  rfl
 
 end Brc20
